@@ -116,6 +116,36 @@ Proof.
 Qed.
 Print Assumptions C11_preceding_not_merged.
 
+(* ---- faults: a call of the operating system that fails is the result of the operation ----
+   If os.stat of name.yaml fails with an error other than "not there" (node Broken), resolution raises OSError:
+   it does not fall back to name/init.yaml, whatever is there.  The same for init.yaml when name.yaml is absent,
+   and for top.yaml.  A file that can be examined but not read (node Unreadable) is resolved normally and reading
+   it is a RuntimeError (the except clause around render). *)
+Theorem C11_stat_fault_is_not_absence : forall C t n,
+  forallb seg_ok n && negb (is_nil n) = true ->
+  (fs_kind t (removelast n ++ [last n [] ++ suffix C]) = Broken -> resolve C t n = Err OSError) /\
+  ((fs_kind t (removelast n ++ [last n [] ++ suffix C]) = NoEnt \/ fs_kind t (removelast n ++ [last n [] ++ suffix C]) = Dir) ->
+   fs_kind t (n ++ [s_init ++ suffix C]) = Broken -> resolve C t n = Err OSError).
+Proof.
+  intros C t n Hok. unfold resolve. rewrite Hok. split.
+  - intros ->. reflexivity.
+  - intros [-> | ->] ->; reflexivity.
+Qed.
+Print Assumptions C11_stat_fault_is_not_absence.
+
+Theorem C11_top_fault : forall V C H render_o yload matches t,
+  (fs_kind t (top_path C) = Broken -> get_data_spec V C H render_o yload matches t = Err OSError) /\
+  (fs_kind t (top_path C) = Unreadable -> get_data_spec V C H render_o yload matches t = Err RuntimeError).
+Proof.
+  intros. unfold get_data_spec, spec_pieces, spec_top, render_path. split; intros ->; reflexivity.
+Qed.
+Print Assumptions C11_top_fault.
+
+Theorem C11_unreadable_file_is_runtime_error : forall C H render_o yload t p,
+  fs_kind t p = Unreadable -> load_file C H render_o yload t p = Err RuntimeError /\ spec_load C H render_o yload t p = Err RuntimeError.
+Proof. intros C H render_o yload t p E. unfold load_file, spec_load, render_path. rewrite E. split; reflexivity. Qed.
+Print Assumptions C11_unreadable_file_is_runtime_error.
+
 Theorem C11_holds : forall c, valid c -> holds c (run_model c) = [].
 Proof. exact holds_model. Qed.
 Print Assumptions C11_holds.
